@@ -72,7 +72,7 @@ class Tr:
         if isinstance(e, ast.Name):
             return e.id
         if isinstance(e, ast.Attribute) and isinstance(e.value, ast.Name) and e.value.id == 'self' \
-                and e.attr in ('n_iter', 'damping_factor', 'labels_', 'labels_row_', 'labels_col_'):
+                and e.attr in ('n_iter', 'damping_factor', 'labels_', 'labels_row_', 'labels_col_', 'a', 'b', 'restart'):
             return 'self.' + e.attr
         return None
 
@@ -111,6 +111,9 @@ class Tr:
                 and isinstance(e.comparators[0], ast.Constant) and e.comparators[0].value == 0 \
                 and not isinstance(e.comparators[0].value, bool):
             return '(XGe0 %s)' % self.expr(e.left)
+        if isinstance(e, ast.Subscript) and isinstance(e.value, ast.Attribute) and e.value.attr == 'shape' \
+                and isinstance(e.slice, ast.Constant) and e.slice.value == 0 and not isinstance(e.slice.value, bool):
+            return '(XLen %s)' % self.expr(e.value.value)
         if isinstance(e, ast.Attribute) and e.attr == 'T':
             return '(XT %s)' % self.expr(e.value)
         if isinstance(e, ast.Call):
@@ -137,6 +140,8 @@ class Tr:
             m = self.method(e, 'astype', 1)
             if m and isinstance(m[1][0], ast.Name) and m[1][0].id == 'float':
                 return '(XCopy %s)' % self.expr(m[0])
+            if m and isinstance(m[1][0], ast.Name) and m[1][0].id == 'bool':
+                return '(XAsBool %s)' % self.expr(m[0])
             m = self.method(e, 'diagonal')
             if m:
                 return '(XDiagonal %s)' % self.expr(m[0])
@@ -492,3 +497,64 @@ def gen_npsecondary():
 
 
 FILES['NpSecondary.v'] = gen_npsecondary
+
+
+# ---------------------------------------------------------------------------------------------------------------------
+# linalg/ppr_solver.py: RandomSurferOperator (C04)
+# ---------------------------------------------------------------------------------------------------------------------
+PREL = 'sknetwork/linalg/ppr_solver.py'
+PPR_IMPORTS = {'normalize': 'sknetwork.linalg.normalizer'}
+
+
+def gen_nprso():
+    tree = ast.parse(_src(PREL))
+    cls = [n for n in tree.body if isinstance(n, ast.ClassDef) and n.name == 'RandomSurferOperator']
+    if len(cls) != 1:
+        raise TranslateError('RandomSurferOperator not found')
+    meths = {m.name: m for m in cls[0].body if isinstance(m, ast.FunctionDef)}
+    if set(meths) != {'__init__', '_matvec'}:
+        raise TranslateError('unexpected methods of RandomSurferOperator: %r' % sorted(meths))
+    init, mv = meths['__init__'], meths['_matvec']
+    if [a.arg for a in init.args.args] != ['self', 'adjacency', 'seeds', 'damping_factor'] or [a.arg for a in mv.args.args] != ['self', 'x']:
+        raise TranslateError('unexpected signatures in RandomSurferOperator')
+    body = Tr.strip(init.body)
+    if ast.unparse(body[0]) != 'super(RandomSurferOperator, self).__init__(shape=adjacency.shape, dtype=float)':
+        raise TranslateError('unexpected first statement of RandomSurferOperator.__init__')
+    stmts = []
+    for s_ in body[1:]:
+        if isinstance(s_, ast.If) and ast.unparse(s_.test) == "hasattr(adjacency, 'left_sparse_dot')":
+            # a SciPy sparse matrix has no left_sparse_dot: the else branch (linear operators take the other one)
+            stmts += Tr.strip(s_.orelse)
+        else:
+            stmts.append(s_)
+    # self.X = e  ->  "self.X" = e
+    conv = []
+    for s_ in stmts:
+        if isinstance(s_, ast.Assign) and len(s_.targets) == 1 and isinstance(s_.targets[0], ast.Attribute) \
+                and isinstance(s_.targets[0].value, ast.Name) and s_.targets[0].value.id == 'self':
+            if s_.targets[0].attr not in ('a', 'b', 'restart'):
+                raise TranslateError('unexpected attribute self.%s' % s_.targets[0].attr)
+            conv.append(('self.' + s_.targets[0].attr, s_.value))
+        elif isinstance(s_, ast.Assign) and len(s_.targets) == 1 and isinstance(s_.targets[0], ast.Name):
+            conv.append((s_.targets[0].id, s_.value))
+        else:
+            raise TranslateError('unsupported statement in __init__: ' + ast.unparse(s_))
+    if {k for k, _ in conv if k.startswith('self.')} != {'self.a', 'self.b', 'self.restart'}:
+        raise TranslateError('__init__ does not set exactly self.a, self.b, self.restart')
+    mvb = Tr.strip(mv.body)
+    if len(mvb) != 1 or not isinstance(mvb[0], ast.Return):
+        raise TranslateError('unexpected body of _matvec')
+    tr = Tr(tree, PPR_IMPORTS)
+    term = tr.expr(mvb[0].value)
+    for name, val in reversed(conv):
+        term = '(XLet %s %s %s)' % (_cstr(name), tr.expr(val), term)
+    out = ['(* generated by harness/translators/npvec.py from %s; do not edit *)' % PREL,
+           'From SKN Require Import Base.Util Model.NpExpr Model.NpVec.',
+           'From Coq Require Import String.',
+           'Local Open Scope string_scope.', '',
+           '(* %s: RandomSurferOperator(adjacency, seeds, damping_factor)._matvec(x), sparse-matrix branch *)' % PREL,
+           'Definition src_rso_matvec : vexpr :=\n  %s.' % term, '']
+    return '\n'.join(out)
+
+
+FILES['NpRso.v'] = gen_nprso
